@@ -53,6 +53,7 @@ type Engine struct {
 	maxDispatch     int
 	models          map[string]*model
 	extraOverlay    map[string]string // path -> replacement file (self-test mutations)
+	curProp         string            // property being checked in this run
 }
 
 func (eng *Engine) readExtraOverlay(path string) error {
@@ -179,6 +180,7 @@ func (eng *Engine) load(mirror string, patterns []string) error {
 			cls = append(cls, c.Requires...)
 			cls = append(cls, c.Ensures...)
 			cls = append(cls, c.Modifies...)
+			cls = append(cls, c.AllocExpr)
 			for _, o := range c.Olds {
 				cls = append(cls, o.Clause)
 			}
